@@ -420,3 +420,22 @@ def _r_c17_q(f):
     t = Shaper(raw_graph=nt, input_format=C.NT, all_classes_mode=True, namespaces_dict={"http://example.org/": "ex"},
                examples_mode=C.CONSTRAINT_EXAMPLES).shex_graph(string_output=True)
     return '// rdfs:comment "ex:Bella"' in t
+
+
+@trigger("empty_target_list")
+def _t_empty_targets(f, obs):
+    return obs.get("kind") == "exception" and obs.get("exc") == "ValueError" and "There are not target classes" in obs.get("msg", "") \
+        and obs.get("empty_targets") is True
+
+
+@replayer("empty_target_list")
+def _r_empty_targets(f):
+    from shexer.shaper import Shaper
+    from shexer import consts as C
+    nt = '<http://example.org/a> <http://www.w3.org/1999/02/22-rdf-syntax-ns#type> <http://example.org/C> .\n'
+    s = Shaper(raw_graph=nt, input_format=C.NT, target_classes=[])
+    try:
+        s.shex_graph(string_output=True)
+        return False
+    except ValueError as e:
+        return "There are not target classes" in str(e)
